@@ -90,6 +90,10 @@ impl Xot {
     /// ```
     pub fn append(&mut self, parent: Node, child: Node) -> Result<(), Error> {
         self.add_structure_check(Some(parent), child)?;
+        if self.last_child(parent) == Some(child) {
+            // already in the requested position
+            return Ok(());
+        }
         self.remove_consolidate_text_nodes(self.previous_sibling(child), self.next_sibling(child));
         if self.add_consolidate_text_nodes(child, self.last_child(parent), None) {
             return Ok(());
@@ -331,6 +335,10 @@ impl Xot {
     /// It is now the new first node of the parent.
     pub fn prepend(&mut self, parent: Node, child: Node) -> Result<(), Error> {
         self.add_structure_check(Some(parent), child)?;
+        if self.first_child(parent) == Some(child) {
+            // already in the requested position
+            return Ok(());
+        }
         self.remove_consolidate_text_nodes(self.previous_sibling(child), self.next_sibling(child));
         if self.add_consolidate_text_nodes(child, None, self.first_child(parent)) {
             return Ok(());
@@ -375,10 +383,20 @@ impl Xot {
     pub fn insert_after(&mut self, reference_node: Node, new_sibling: Node) -> Result<(), Error> {
         self.add_structure_check(self.parent(reference_node), new_sibling)?;
         self.sibling_reference_check(reference_node, new_sibling)?;
-        self.remove_consolidate_text_nodes(
-            self.previous_sibling(new_sibling),
-            self.next_sibling(new_sibling),
-        );
+        if self.next_sibling(reference_node) == Some(new_sibling) {
+            // already in the requested position
+            return Ok(());
+        }
+        let old_previous = self.previous_sibling(new_sibling);
+        let old_next = self.next_sibling(new_sibling);
+        let reference_node = if self.remove_consolidate_text_nodes(old_previous, old_next)
+            && old_next == Some(reference_node)
+        {
+            // the reference node was merged into the text node before it
+            old_previous.unwrap()
+        } else {
+            reference_node
+        };
         if self.add_consolidate_text_nodes(
             new_sibling,
             Some(reference_node),
@@ -396,6 +414,10 @@ impl Xot {
     pub fn insert_before(&mut self, reference_node: Node, new_sibling: Node) -> Result<(), Error> {
         self.add_structure_check(self.parent(reference_node), new_sibling)?;
         self.sibling_reference_check(reference_node, new_sibling)?;
+        if self.previous_sibling(reference_node) == Some(new_sibling) {
+            // already in the requested position
+            return Ok(());
+        }
         self.remove_consolidate_text_nodes(
             self.previous_sibling(new_sibling),
             self.next_sibling(new_sibling),
